@@ -157,6 +157,9 @@ func runC04(c *Ctx) {
 	c.Floor("C04-R1", "ciphertext slots of persistence helpers", nSlots, 14)
 	c.Floor("C04-R1", "slot-filling call sites", nSites, 25)
 	checkCiphertextFieldSlots(c, "C04-R1")
+	// what is written is ciphertext only if no two seals share key and nonce: the nonce of every seal is freshly read
+	// from the random source (C17-R2's rule)
+	c.Borrow(runC17, "C17-R2", "C04-R1", func(k string) bool { return strings.HasPrefix(k, "nonce-") })
 	checkScriptSecrecyClassIsCallers(c, "C04-R1")
 
 	// ---------- R2 ----------
